@@ -247,6 +247,8 @@ def run(ctx):
     import importlib
     importlib.import_module("rules.c08").d1(db, rep, "D5-LOCKED-STATE")
 
+    d6_region_fresh(db, rep)
+
     # ---- D3 ------------------------------------------------------------------
     cp = db.func("orc_compiler_compile_program", "orccompiler")
     rep.saw(cp)
@@ -301,3 +303,102 @@ def run(ctx):
     rep.check(ok, "D3-BOUNDED-COPY", where(al), "round-up", "aligned size = (max(1,size) + a) & ~a  >= size", "the size requested from the allocator is no longer a round-up of the requested size: `%s`" % txt)
     cs = stores.get("code_size")
     rep.check(cs is not None and unparse(strip_casts(cs.c[1])) == SIZE, "D3-BOUNDED-COPY", where(al), "code_size", "code_size records the requested size", "code->code_size is not the requested size")
+
+
+HEAP_ALLOCATORS = ("orc_malloc", "malloc", "calloc")
+
+
+def fresh_result(db, g, memo, depth=0):
+    """None if every non-NULL value g can return is an object nobody else holds: a heap block allocated in g (or by a callee
+    with the same property), or a value moved out of a variable that outlives the call (the variable is overwritten on every
+    path from the load to the exit).  Otherwise a description of the offending return."""
+    from flow import paths_avoiding
+    if g.name in memo:
+        return memo[g.name]
+    memo[g.name] = None                       # recursion guard
+    res = None
+    rets = [r for r in g.walk() if r.k == "ReturnStmt" and r.c and r.c[0] is not None]
+    locs = {x.name for x in g.walk() if x.k == "VarDecl" and not x.get("static")}
+    for r in rets:
+        e = strip_casts(r.c[0])
+        if e is None or e.v == 0:
+            continue
+        srcs = [e]
+        if e.k == "DeclRefExpr" and e.name in locs:
+            srcs = []
+            for x in g.walk():
+                if x.k == "VarDecl" and x.name == e.name and x.c and x.c[0] is not None:
+                    srcs.append(x.c[0])
+                elif x.k == "BinaryOperator" and x.op == "=" and access_path(x.c[0]) == e.name:
+                    srcs.append(x.c[1])
+        for s0 in srcs:
+            s = strip_casts(s0)
+            if s is None or s.v == 0:
+                continue
+            if s.k == "CallExpr" and s.name in HEAP_ALLOCATORS:
+                continue
+            if s.k == "CallExpr" and s.name and depth < 4:
+                try:
+                    h = db.func(s.name)
+                except AnalysisBroken:
+                    h = None
+                if h is not None and h.body is not None:
+                    why = fresh_result(db, h, memo, depth + 1)
+                    if why is None:
+                        continue
+                    res = "%s returns the result of %s, and %s" % (g.name, s.name, why)
+                    break
+            p = access_path(s)
+            if p and (s.k != "DeclRefExpr" or s.name not in locs) and e.k == "DeclRefExpr":
+                # moved out of longer-lived storage: that storage must be overwritten before the function returns,
+                # or the local re-assigned, on every path from the load
+                def rel(el, p=p, nm=e.name, s0=s0):
+                    return el.k == "BinaryOperator" and el.op == "=" and (access_path(el.c[0]) == p or (access_path(el.c[0]) == nm and el.c[1] is not s0 and strip_casts(el.c[1]) is not s))
+                st = s0
+                while st.parent is not None and not (st.k in ("BinaryOperator", "VarDecl", "DeclStmt") and (st.k != "BinaryOperator" or st.op == "=")):
+                    st = st.parent
+                w = paths_avoiding(g, st, rel)
+                if w is None:
+                    continue
+                res = "%s (line %s) returns the pointer it read from `%s` while `%s` keeps it: the next call returns the same object again" % (g.name, r.line, p, p)
+                break
+            res = "%s (line %s) returns `%s`, which is not a freshly allocated object" % (g.name, r.line, unparse(s)[:50])
+            break
+        if res:
+            break
+    memo[g.name] = res
+    return res
+
+
+def d6_region_fresh(db, rep):
+    """D6: every region entered into the region table is an object of its own.  Two table entries (or two chunk lists) that are
+    the same OrcCodeRegion make live functions overlap while each list stays well formed."""
+    tu = db.tu("orccodemem")
+    n = 0
+    memo = {}
+    for f in tu.main_functions():
+        for x in f.walk():
+            if x.k == "BinaryOperator" and x.op == "=" and strip_casts(x.c[0]) is not None and strip_casts(x.c[0]).k == "ArraySubscriptExpr" \
+                    and access_path(strip_casts(x.c[0]).c[0]) == "orc_code_regions":
+                r = strip_casts(x.c[1])
+                if r is None or r.k != "DeclRefExpr":
+                    raise AnalysisBroken("orc_code_regions[...] = %s: not a local" % unparse(x.c[1]))
+                from flow import reaching_defs
+                defs = [(d.c[1] if d.k == "BinaryOperator" else d.c[0]) for d in reaching_defs(f, r.name, x)]
+                for d in defs:
+                    n += 1
+                    d = strip_casts(d)
+                    why = None
+                    if d.k == "CallExpr" and d.name in HEAP_ALLOCATORS:
+                        pass
+                    elif d.k == "CallExpr" and d.name:
+                        why = fresh_result(db, db.func(d.name), memo)
+                    else:
+                        why = "it is `%s`" % unparse(d)[:50]
+                    rep.saw(f)
+                    rep.check(why is None, "D6-REGION-FRESH", where(f), "orc_code_regions[]<-%s" % unparse(d)[:40],
+                              "the region appended to the table comes from %s, every non-NULL result of which is a newly allocated object" % unparse(d)[:40],
+                              "the region appended to orc_code_regions[] need not be a new object: %s. Live functions placed in the 'new' region then overlap those of an existing one" % why,
+                              line=x.line)
+    if n < 1:
+        raise AnalysisBroken("no store into orc_code_regions[] found")
